@@ -5,6 +5,7 @@ import (
 	"go/ast"
 	"go/token"
 	"go/types"
+	"sort"
 	"strings"
 
 	"github.com/jmattheis/goverter/config"
@@ -47,6 +48,8 @@ func ParseDocs(c ParseDocsConfig) ([]config.RawConverter, error) {
 	if err != nil {
 		return nil, err
 	}
+	// the result must not depend on the order of the package patterns
+	sort.SliceStable(pkgs, func(i, j int) bool { return pkgs[i].PkgPath < pkgs[j].PkgPath })
 	rawConverters := []config.RawConverter{}
 	for _, pkg := range pkgs {
 		if len(pkg.Errors) > 0 {
